@@ -18,3 +18,17 @@ c = contract(PO + "#response-entry", props=["C19", "C07"], region_for_target="(s
 @c.ensures(only_exit="end", note="every entry of `responses` contributes exactly one parsed response (none is skipped)")
 def po_one_response_per_entry(resps, old):
     return len(resps) == len(old.resps) + 1
+
+
+# ---- C07 last clause: "If an operation cannot be represented, generation fails visibly instead of omitting it" ------------------------------
+# One arbitrary (method, node) entry of a path item: no exception raised while the operation is being parsed is caught and dropped — every
+# normal exit of the iteration is reached without a swallowed exception (ghost flag set when a handler completes without raising).
+c = contract(PO + "#operation-entry", props=["C07"], region_for_target="(method, on)", region_body_only=True,
+             types={"method": "any", "on": "any", "path": "any", "ops": "list", "base_params_nodes": "any", "raw_responses": "dict", "raw_request_bodies": "any",
+                    "context": "obj", "naming_strategy": "any"},
+             abstract_unsupported=True, abstract_comprehensions=True, no_swallow=True)
+
+
+@c.ensures(only_exit="end", note="an iteration ends normally either having skipped a non-operation key or having appended exactly one operation")
+def po_at_most_one_operation(ops, old):
+    return len(ops) == len(old.ops) or len(ops) == len(old.ops) + 1
